@@ -127,6 +127,22 @@ CHECKS["C17"] = dict(
     note="Member values are small ints / strings / arrays / None identified by embedded ids; pickle fidelity of members is C02's oracle.",
     ref="6/C17")
 
+CHECKS["C14"] = dict(
+    technique="Coq proof (collected rule set = reachability in the reference graph, by soundness of saturation + completeness of a checked fixpoint; transitive / direct sets characterised) + differential runs over reference graphs (exhaustive for small N, random beyond) incl. enforcement of undeclared calls",
+    text="Theorems over Version/Rules.v: for every program, once saturation is closed (a boolean evaluated on every case) the collected hash rules are exactly the rules reachable from the function; the reported transitive memento dependencies are exactly the memento functions reachable through memento functions and in-scope plain functions; "
+         "the direct ones exactly those named in the body; no rule is collected twice. Implementation: ALL graphs on 1..2 (quick) / 1..3 (thorough) nodes of kinds {auto memento, pinned memento, plain} with every edge set (self loops, cycles), plus random graphs on 3-6 nodes with reference forms {bare, module attribute, alias, decorator-wrapped}; "
+         "transitive / direct sets, function rule keys and dependency-graph edges compared with the model and with plain reachability; hidden dynamic calls outside the closure must raise UndeclaredDependencyError directly and through every modifier clone, also after the target was once legitimately passed as an argument.",
+    note="Name resolution is performed by the implementation on live objects; the model receives resolved edges. The enforcement half is decided by the harness (the model fixes which calls are outside the closure).",
+    ref="6/C14")
+
+CHECKS["C03"] = dict(
+    technique="Coq proof (the digest input = rule contents in canonical key order is invariant under any reordering of reference iteration; keys identify rules) + differential fresh-interpreter runs across PYTHONHASHSEED / import order / definition order / query order, rule set vs model, second process executes no body",
+    text="Theorems over Version/Rules.v: two presentations of a program that differ only in the order in which each function's references are iterated feed the same sequence of rule contents to the digest (collect is order-dependent as a list, the sorted list is not); rule sort keys are injective. "
+         "Implementation: generated programs (memento / plain functions, variables, undefined names, cycles, aliases, module attributes, int-set and string-set constants, defaults, nested code) are loaded in fresh interpreters under different hash seeds, import orders, definition orders and version-query orders; "
+         "versions, ordered rule lists and per-rule hashes must be identical, the rule set must be the model's, the version must be the digest of rule hashes in key order, and a second process against the same store must execute no body.",
+    note="PYTHONHASHSEED values are sampled. sha256 and the byte-level content of each rule hash are not modelled (contents are abstract numbers); per-rule hashes are compared between processes instead.",
+    ref="6/C03")
+
 NOT_YET = {}
 
 
